@@ -147,24 +147,29 @@ Section Typed.
   Definition fill_ranges_t (zero : A) (xval : tarr) (cum : list nat) (sdt : dtype) (vals : list A) : tarr :=
     fold_left (fun acc i => assign_range_t acc (nth i cum 0) (nth (S i) cum 0) sdt (nth i vals d))
               (seq 0 (length vals)) (zeros_like zero xval).
+  (* np.asarray(b, dtype=float)  /  b.astype(float) *)
+  Definition as_float (x : tarr) : tarr := (F64, map (conv (fst x) F64) (snd x)).
   (* xmin / xmax:
        if not hasattr(b, '__len__'): b = b * np.ones_like(xval)
        elif len(b) == len(variables): per-signal expansion into np.zeros_like(xval)
-       if len(b) != n: raise RuntimeError                 (a per-variable sequence is kept as it was given) *)
+       if len(b) != n: raise RuntimeError
+       b = np.asarray(b, dtype=float)                (fix 54bd286 / F35: also a per-variable list or tuple becomes an array) *)
   Definition expand_bound_t (zero : A) (xval : tarr) (nvars : nat) (cum : list nat) (b : tbspec) : option tarr :=
-    match b with
-    | TBScal sdt a => Some (scal_times_ones_like sdt a xval)
-    | TBList sdt l =>
-        let l' := if length l =? nvars then fill_ranges_t zero xval cum sdt l else (sdt, l) in
-        if length (snd l') =? length (snd xval) then Some l' else None
-    end.
-  (* move: a scalar stays a scalar (broadcast later); a sequence goes through np.asarray first *)
+    let b' := match b with
+              | TBScal sdt a => scal_times_ones_like sdt a xval
+              | TBList sdt l => if length l =? nvars then fill_ranges_t zero xval cum sdt l else (sdt, l)
+              end in
+    if length (snd b') =? length (snd xval) then Some (as_float b') else None.
+  (* move: a scalar stays a scalar (broadcast later); a sequence goes through move_input = np.asarray(move) first:
+       if move_input.size == len(variables): per-signal expansion into np.zeros_like(xval)
+       elif len(move) != n: raise RuntimeError
+       else: move = move_input.astype(float)                                                       (fix 54bd286 / F35) *)
   Definition expand_move_t (zero : A) (xval : tarr) (nvars : nat) (cum : list nat) (b : tbspec) : option tarr :=
     match b with
     | TBScal sdt a => Some (sdt, repeat a (length (snd xval)))
     | TBList sdt l =>
         if length l =? nvars then Some (fill_ranges_t zero xval cum sdt l)
-        else if length l =? length (snd xval) then Some (sdt, l) else None
+        else if length l =? length (snd xval) then Some (as_float (sdt, l)) else None
     end.
 
   (* the write-back loop: every state is an element / a slice of xval, hence of its dtype *)
